@@ -26,7 +26,7 @@ func init() {
 		Phases: func(tier string, seed int64) []Phase {
 			return []Phase{{Name: "request-direction", Run: c14Request}, {Name: "response-direction", Run: c14Response}, {Name: "constructors", Run: c14Constructors}, {Name: "instance-reuse", Run: c14Reuse}}
 		},
-		MinObserved: []string{"controls_checked", "request_direction_controls", "response_direction_controls", "goldap_decodes_compared", "reused_instance_encodings", "responses_with_a_non_success_result_code", "behera_constructor_calls_with_reordered_options"},
+		MinObserved: []string{"controls_checked", "request_direction_controls", "response_direction_controls", "goldap_decodes_compared", "reused_instance_encodings", "responses_with_a_non_success_result_code", "behera_constructor_calls_with_reordered_options", "messages_with_16_to_40_controls"},
 	})
 }
 
@@ -383,6 +383,7 @@ func c14Response(c *Ctx) {
 			c.Sample(map[string]any{"direction": "response", "search": isSearch, "controls": specs})
 		}
 	}
+	c.Count("messages_with_16_to_40_controls", longCtlLists.Swap(0))
 }
 
 // c14Reuse: a control VALUE is what its exported fields say at the time it is encoded. One instance is encoded,
